@@ -110,7 +110,8 @@ class Stack:
     def _send_message(self, can_id, extended_id, data, fd_format=False):
         d = [int(x) for x in data]
         sim = self.sim
-        sim.trace.append((sim.now, self.idx, 'tx', can_id, bool(extended_id), bool(fd_format), tuple(d)))
+        sim.trace.append((sim.now, self.idx, 'tx', can_id, bool(extended_id), bool(fd_format), tuple(d),
+                          tuple((ca._device_address_state, ca._device_address) for ca in self.cas)))
         self.emit([T_TX, can_id, 1 if extended_id else 0, 1 if fd_format else 0, len(d)] + d)
         sim.transmit(self.idx, (can_id, bool(extended_id), d, bool(fd_format)))
         self.cont()
